@@ -47,6 +47,11 @@ def build(tier: str) -> list[Obligation]:
     # concrete float/complex catalogue inside symbolic containers (bit patterns via struct)
     for name in skel.FLOATS:
         obs.append(obligation(("L", [("K", name), ("I",)])))
+    # two equal-but-distinguishable leaves in one value (a memoising encoder would merge them): signed zeros, NaN payloads, True/1/1.0
+    for a, b in (("zero", "nzero"), ("nzero", "zero"), ("nan", "nan_payload"), ("c_mixed", "c_plain")):
+        obs.append(obligation(("L", [("K", a), ("K", b), ("I",)])))
+        obs.append(obligation(("T", [("K", b), ("K", a)])))
+    obs.append(obligation(("L", [("C", "True"), ("C", "1"), ("C", "1.0"), ("C", "False"), ("C", "0"), ("C", "0.0"), ("I",)])))
     # --- sequences, depth 1
     for sk in skel.depth1(kinds=("L", "T"), widths=(0, 1), leaves=L):
         obs.append(obligation(sk))
